@@ -1,6 +1,7 @@
 """C15 — client-level check (monitors on the real client through H-client; Lean obligations from Props/C15.lean)."""
 from vlib import *
 import client_check as CC
+import validate_check
 
 
 def run(ctx):
@@ -11,7 +12,9 @@ def run(ctx):
                        "cancellation signals), a broker (acks with reason codes/properties, inbound QoS 0/1/2 messages, held-back replies), byte chunking, connection loss with partial delivery, "
                        "reconnects with changing Receive Maximum / Server Keep Alive / Session Present, virtual time, then a fault-free suffix and cancel() or async_disconnect; "
                        "the C15 monitor runs on every transcript; non-trivial = distinct scenario with >= 2 (re)connections and > 3 operations")
-    found = CC.report(ctx, "C15", fails)
+    found_v = validate_check.run(ctx, 500 if ctx.tier == "quick" else 20000)
+    ctx.cov["rule"] += "; plus request validation correspondence: publish/subscribe requests at and around every capability boundary (Maximum QoS, Retain Available, Topic Alias Maximum, Maximum Packet Size, wildcard/shared/identifier availability, malformed strings) through the real client holding a CONNACK with those capabilities, result (packet bytes or immediate error) compared with the Lean Validate model"
+    found = found_v or CC.report(ctx, "C15", fails)
     report_broken_ties(ctx, found)
     if ctx.tier == "thorough" and not ctx.ties_broken:
         for m, msg in leanchecker(ctx.lean.get("modules", [])):
